@@ -140,6 +140,11 @@ def run_case(case, rec):
             ints = ints[1:] + ints[:1]
         check_compact(rec, ints, 'exhaustive')
         return len(ints) >= 2
+    if case.get('only') == 'fuzz':
+        for sub, detail in fuzz_oracle(bytes.fromhex(case['hex'])):
+            rec.check(sub, False, detail)
+        rec.check('C18.fuzz.replayed', True)
+        return False
     d = Driver(case)
     accepted = []
     for op in case['ops']:
@@ -227,3 +232,184 @@ def run_case(case, rec):
         if fmt == 'snap' and any(len(r) == 4 for r in rows):
             rec.classify('keys: 4-column rows')
     return len(rows) >= 2 and len(meta['kinds']) >= 2 and meta['trailing'] >= 1
+
+
+# ======================================================================= byte-level fuzzing (thorough tier)
+def _classify_lines(text, fmt):
+    """Independent reading of the statement: returns (clean_rows, in_domain, type_error_expected).
+    Comment marker '#', whitespace delimiter.  Inputs the statement says nothing about (5+ columns in a
+    snapshot file, e <= t, a '-' without an earlier '+', an op other than + / -) are out of domain."""
+    rows = []
+    type_err = False
+    seen_plus = set()
+    for line in text.split('\n'):
+        i = line.find('#')
+        if i >= 0:
+            line = line[:i]
+        f = line.split()
+        if fmt == 'snap':
+            if len(f) < 3:
+                continue
+            if len(f) > 4:
+                return None, False, False
+            try:
+                t = int(f[2])
+                e = int(f[3]) if len(f) == 4 else None
+            except ValueError:
+                type_err = True
+                break
+            if e is not None and e <= t:
+                return None, False, False
+            if abs(t) > 10 ** 6 or (e is not None and e - t > 64):
+                return None, False, False     # keeps the oracle's instant scan (and the library's per-instant loops) bounded
+            rows.append((f[0], f[1], t, e))
+        else:
+            if len(f) != 4:
+                continue
+            if f[2] not in ('+', '-'):
+                return None, False, False
+            try:
+                t = int(f[3])
+            except ValueError:
+                type_err = True
+                break
+            if abs(t) > 10 ** 4:
+                return None, False, False
+            if f[2] == '-' and frozenset((f[0], f[1])) not in seen_plus:
+                return None, False, False
+            seen_plus.add(frozenset((f[0], f[1])))
+            rows.append((f[0], f[1], f[2], t))
+    return rows, True, type_err
+
+
+def fuzz_oracle(data):
+    """Returns a list of (sub-oracle, detail) failures for one fuzz input (bytes)."""
+    import dynetx as dn
+    from ..model import Ref
+    if len(data) < 2:
+        return []
+    fmt = 'snap' if data[0] % 2 == 0 else 'inter'
+    directed = bool(data[1] % 2)
+    text = data[2:].decode('latin-1')
+    if '\r' in text or '\x0b' in text or '\x0c' in text or '\x1c' in text or '\x1d' in text or '\x1e' in text or '\x85' in text:
+        return []                       # exotic line/field separators: str.split() and the statement are silent
+    rows, in_domain, type_err = _classify_lines(text, fmt)
+    if not in_domain:
+        return []
+    lines = [ln + '\n' for ln in text.split('\n')]
+    parse = dn.parse_snapshots if fmt == 'snap' else dn.parse_interactions
+    fails = []
+    ok, G = safe(parse, lines, directed=directed, timestamptype=int)
+    if type_err:
+        if ok or type(G) not in (TypeError, ValueError):
+            fails.append(('C18.fuzz.type_error', 'input %r: expected TypeError, got %r' % (data, G)))
+        elif type(G) is ValueError and 'interaction extension' not in str(G):
+            fails.append(('C18.fuzz.type_error', 'input %r: expected TypeError, got %r' % (data, G)))
+        return fails
+    # replay the valid rows on the model; a row may legitimately be rejected by the ordering rule
+    M = Ref(directed, True)
+    rejected = False
+    latest = {}
+    for r in rows:
+        if fmt == 'snap':
+            u, v, t, e = r
+            if M.expected_outcome(u, v, t, e) != 'ok':
+                rejected = True
+                break
+            M.apply_add(u, v, t, e)
+        else:
+            u, v, op, t = r
+            k = M.key(u, v)
+            if op == '+':
+                if M.expected_outcome(u, v, t) != 'ok':
+                    rejected = True
+                    break
+                M.apply_add(u, v, t)
+                latest[k] = t
+            else:
+                lr = M.latest_run(k)
+                if lr[1] < t:
+                    M.apply_add(u, v, lr[1], t)
+    if rejected:
+        if ok or type(G) is not ValueError:
+            fails.append(('C18.fuzz.rejection', 'input %r: a row starts before the latest run of its pair, got %r' % (data, G)))
+        return fails
+    if not ok:
+        fails.append(('C18.fuzz.exception', 'input %r raised %r' % (data, G)))
+        return fails
+    clean = []
+    for r in rows:
+        clean.append(' '.join(str(x) for x in r if x is not None) + '\n')
+    ok2, C = safe(parse, clean, directed=directed, timestamptype=int)
+    if not ok2:
+        fails.append(('C18.fuzz.exception', 'valid rows %r of input %r raised %r' % (clean, data, C)))
+        return fails
+    o1, o2 = observe(G), observe(C)
+    if o1 != o2:
+        fails.append(('C18.fuzz.noise', 'input %r differs from its valid rows %r in %r' % (data, clean, diff(o1, o2))))
+    nodes = list(M.nodes)
+    sparse = sorted({t + k for t in M.mentioned_instants() for k in (-1, 0, 1)})
+    for u in nodes:
+        for v in nodes:
+            for t in sparse:
+                if bool(G.has_interaction(u, v, t)) != M.present(u, v, t):
+                    fails.append(('C18.fuzz.presence', 'input %r: has_interaction(%r, %r, %r) = %r, rows say %r' % (
+                        data, u, v, t, G.has_interaction(u, v, t), M.present(u, v, t))))
+                    return fails
+    return fails
+
+
+FUZZ_SEEDS = [b'\x00\x001 2 2\n1 2 3\n# c\n\n1 3 2 5\n', b'\x00\x01a b 0 4 # x\nb a 2\n  \nz\n', b'\x01\x001 2 + 2\n1 2 - 6\n1 2 + 7\n1 3 + 7\n1 2 - 15\n',
+              b'\x01\x01a b + 0\nb a + 1 #t\na b - 4\nx\n']
+
+
+def extra(tier, rec, seed, shard, nshards):
+    """Thorough tier: coverage-guided campaign with atheris (libFuzzer) on the two line parsers."""
+    import glob
+    import os
+    import subprocess
+    import sys
+    import tempfile
+    if tier != 'thorough':
+        return
+    here = os.path.dirname(os.path.dirname(os.path.dirname(os.path.abspath(__file__))))
+    try:
+        sys.path.append(os.path.join(here, '.deps'))
+        import atheris  # noqa: F401
+    except Exception as ex:
+        rec.note('atheris unavailable (%s): byte-level campaign skipped' % type(ex).__name__)
+        return
+    work = tempfile.mkdtemp(prefix='dxfuzz_')
+    try:
+        corpus = os.path.join(work, 'corpus')
+        arts = os.path.join(work, 'artifacts') + os.sep
+        os.makedirs(corpus)
+        os.makedirs(arts)
+        if shard % 2:
+            for i, sd in enumerate(FUZZ_SEEDS):
+                open(os.path.join(corpus, 'seed%d' % i), 'wb').write(sd)
+            rec.classify('fuzz shard with seed corpus')
+        else:
+            rec.classify('fuzz shard with empty corpus')
+        secs = int(os.environ.get('DXVERIF_FUZZ_SECONDS', '120'))
+        env = dict(os.environ, PYTHONPATH=os.pathsep.join([here, os.path.join(here, '.deps')]))
+        cmd = [sys.executable, '-B', '-m', 'dxverif.fuzz_c18', corpus, '-max_total_time=%d' % secs, '-seed=%d' % (seed % (2 ** 31) or 1),
+               '-artifact_prefix=' + arts, '-max_len=160', '-print_final_stats=1', '-timeout=20']
+        p = subprocess.run(cmd, cwd=here, env=env, stdout=subprocess.PIPE, stderr=subprocess.STDOUT, text=True, timeout=secs + 120)
+        execs = 0
+        for ln in p.stdout.splitlines():
+            if 'stat::number_of_executed_units' in ln:
+                execs = int(ln.split()[-1])
+        rec.note('atheris executions', execs)
+        rec.note('atheris corpus units', len(os.listdir(corpus)))
+        from ..runner import run_one
+        import importlib
+        mod = importlib.import_module('dxverif.props.c18')
+        for f in sorted(glob.glob(arts + '*')):
+            data = open(f, 'rb').read()
+            run_one(mod, {'only': 'fuzz', 'hex': data.hex()}, rec)
+        if p.returncode not in (0, 1) and not glob.glob(arts + '*'):
+            rec.note('atheris exited with %d without an artifact' % p.returncode)
+    finally:
+        import shutil
+        shutil.rmtree(work, ignore_errors=True)
